@@ -302,7 +302,7 @@ Lemma choose_repeated_sound s n hint : s <> [] ->
   let ms := choose_repeated s n hint in
   (forall m, In m ms -> In m s) /\ List.length ms = n.
 Proof.
-  intros N. cbn zeta. unfold choose_repeated.
+  intros N. cbn zeta. unfold choose_repeated. cbv zeta beta.
   destruct s as [|x s]; [congruence|].
   assert (D : (forall m, In m (repeat x n) -> In m (x :: s)) /\ List.length (repeat x n) = n).
   { split; [|apply repeat_length]. intros m Hm. apply repeat_spec in Hm. left. congruence. }
@@ -316,8 +316,24 @@ Lemma choose_repeated_complete s n ms :
   (forall m, In m ms -> In m s) -> List.length ms = n ->
   choose_repeated s n (RArr (map RBulk ms)) = ms.
 Proof.
-  intros H2 H3. unfold choose_repeated. rewrite bulks_map.
+  intros H2 H3. unfold choose_repeated. cbv zeta beta. rewrite bulks_map.
   apply subsetb_incl in H2. apply Nat.eqb_eq in H3. rewrite H2, H3. reflexivity.
+Qed.
+
+Lemma accept_repeated_sound s n hint ms : accept_repeated s n hint = Some ms ->
+  (forall m, In m ms -> In m s) /\ zlength ms = n.
+Proof.
+  unfold accept_repeated. destruct (bulks hint) as [l|]; [|discriminate].
+  destruct (subsetb l s && (zlength l =? n)) eqn:E; [|discriminate]. intros H. inversion H; subst.
+  apply andb_true_iff in E as [E1 E2]. split; [apply subsetb_incl; exact E1|apply Z.eqb_eq; exact E2].
+Qed.
+
+Lemma accept_repeated_complete s n ms :
+  (forall m, In m ms -> In m s) -> zlength ms = n ->
+  accept_repeated s n (RArr (map RBulk ms)) = Some ms.
+Proof.
+  intros H2 H3. unfold accept_repeated. rewrite bulks_map.
+  apply subsetb_incl in H2. apply Z.eqb_eq in H3. rewrite H2, H3. reflexivity.
 Qed.
 
 (* ================================================================== B. the keyspace under the set updates *)
@@ -648,8 +664,11 @@ Lemma exec_srandmember_basic d args hint : basic d (exec_srandmember d args hint
 Proof.
   unfold exec_srandmember. destruct args as [|c [|k [|n [|x r]]]]; try same.
   - destruct (get_set d k) eqn:E; try same. destruct (choose_one s hint); same.
-  - destruct (atoi64 n) as [z|]; try same. destruct (z <? - max_random_repeat); try same.
-    destruct (get_set d k) eqn:E; try same. destruct (z >=? 0); same.
+  - destruct (atoi64 n) as [z|]; try same.
+    destruct ((z <? - max_random_repeat) && refused hint); try same.
+    destruct (get_set d k) eqn:E; try same. destruct (z >=? 0); try same.
+    destruct (z <? - max_random_repeat); try same.
+    destruct (accept_repeated s (- z) hint); same.
 Qed.
 
 Lemma exec_member_basic d args : basic d (exec_member d args).
@@ -1127,7 +1146,7 @@ Lemma srandmember_count_raw d c k cnt n hint r d' :
     (n < 0 -> zlength ms = if zlength (rset d k) =? 0 then 0 else - n).
 Proof.
   intros OK Hc Hn Hw H. apply vwrong_get in Hw. unfold exec_srandmember in H. rewrite Hc in H.
-  destruct (n <? - max_random_repeat) eqn:L; [lia|].
+  destruct (n <? - max_random_repeat) eqn:L; [lia|]. cbn [andb] in H.
   destruct (get_set d k) eqn:E; [|congruence|].
   - apply pair_eq in H as [Hr Hd]; subst r d'. split; [reflexivity|].
     exists []. rewrite (rset_missing d k E). repeat split; try constructor.
@@ -1161,7 +1180,7 @@ Lemma srandmember_count_accepts d c k cnt n ms :
   fst (exec_srandmember d [c; k; cnt] (RArr (map RBulk ms))) = RArr (map RBulk ms).
 Proof.
   intros Hc Hn Hw Hin Hpos Hneg. apply vwrong_get in Hw. unfold exec_srandmember. rewrite Hc.
-  destruct (n <? - max_random_repeat) eqn:L; [lia|].
+  destruct (n <? - max_random_repeat) eqn:L; [lia|]. cbn [andb].
   assert (Z0 : forall l : list bytes, zlength l = 0 -> l = []).
   { intros l. destruct l; [reflexivity|]. unfold zlength. cbn. lia. }
   destruct (get_set d k) eqn:E; [|congruence|]; cbn [fst].
@@ -1182,11 +1201,37 @@ Proof.
 Qed.
 
 Lemma srandmember_bad_count_raw d c k cnt hint :
-  (atoi64 cnt = None \/ exists n, atoi64 cnt = Some n /\ n < - max_random_repeat) ->
-  exec_srandmember d [c; k; cnt] hint = (err_other, d).
+  atoi64 cnt = None -> exec_srandmember d [c; k; cnt] hint = (err_other, d).
+Proof. intros H. unfold exec_srandmember. rewrite H. reflexivity. Qed.
+
+(* beyond the bound of the repaired code: the refusal, or what the reference demands *)
+Lemma srandmember_beyond_raw d c k cnt n hint r d' :
+  atoi64 cnt = Some n -> n < - max_random_repeat -> vwrong (raw_view d k) = false ->
+  exec_srandmember d [c; k; cnt] hint = (r, d') ->
+  d' = d /\
+  (r = err_other \/
+   exists ms, r = RArr (map RBulk ms) /\
+     (forall m, In m ms -> smem m (rset d k) = true) /\
+     zlength ms = if zlength (rset d k) =? 0 then 0 else - n).
 Proof.
-  intros [H|(n & H & L)]; unfold exec_srandmember; rewrite H; [reflexivity|].
-  destruct (n <? - max_random_repeat) eqn:L'; [reflexivity|lia].
+  intros Hc Hn Hw H. apply vwrong_get in Hw. unfold exec_srandmember in H. rewrite Hc in H.
+  assert (Hmax : 0 < max_random_repeat) by reflexivity.
+  destruct (n <? - max_random_repeat) eqn:L; [|lia]. cbn [andb] in H.
+  destruct (refused hint); [apply pair_eq in H as [Hr Hd]; subst r d'; split; [reflexivity|left; reflexivity]|].
+  destruct (get_set d k) eqn:E; [|congruence|].
+  - apply pair_eq in H as [Hr Hd]; subst r d'. split; [reflexivity|]. right. exists [].
+    rewrite (rset_missing d k E). repeat split. intros m [].
+  - destruct (n >=? 0) eqn:G; [lia|].
+    destruct (accept_repeated s (- n) hint) as [ms|] eqn:A;
+      apply pair_eq in H as [Hr Hd]; subst r d'; (split; [reflexivity|]); [|left; reflexivity].
+    right. exists ms. rewrite (rset_found d k s E).
+    destruct (accept_repeated_sound s (- n) hint ms A) as [A1 A2]. repeat split.
+    + intros m Hm. apply smem_In. apply A1. exact Hm.
+    + rewrite A2. destruct (zlength s =? 0) eqn:Z0; [|reflexivity].
+      exfalso. apply Z.eqb_eq in Z0. assert (ms = []).
+      { destruct ms as [|x ms]; [reflexivity|]. destruct s; [destruct (A1 x (or_introl eq_refl))|].
+        unfold zlength in Z0. cbn in Z0. lia. }
+      subst ms. unfold zlength in A2. cbn in A2. lia.
 Qed.
 
 (* ================================================================== E. the same, for any database and clock
@@ -1740,14 +1785,42 @@ Proof.
   cbn [fst] in A. subst r. exists d'. reflexivity.
 Qed.
 
-(* the repaired bound: a count below -max_random_repeat (or not an integer) is refused *)
+(* a count that is not an integer is refused; a count beyond the bound of the repaired code
+   (memdb: maxRandomRepeat) is refused too -- or, the reference knowing no bound, answered as
+   the reference demands; either way nothing changes *)
 Theorem step_srandmember_bad_count d now nowms c k cnt hint :
-  db_wf d -> (atoi64 cnt = None \/ exists n, atoi64 cnt = Some n /\ n < - max_random_repeat) ->
+  db_wf d -> atoi64 cnt = None ->
   exists d', sets_step d now nowms (B "srandmember") [c; k; cnt] hint = Some (err_other, d') /\
              unchanged d d' now.
 Proof.
   intros W H. exists (purge d now). split; [|apply unchanged_purge; exact W].
   unfold sets_step. rewrite dispatch_srandmember, (srandmember_bad_count_raw _ c k cnt hint H). reflexivity.
+Qed.
+
+Theorem step_srandmember_beyond d now nowms c k cnt n hint r d' :
+  db_wf d -> atoi64 cnt = Some n -> n < - max_random_repeat -> wrong_at d now k = false ->
+  sets_step d now nowms (B "srandmember") [c; k; cnt] hint = Some (r, d') ->
+  unchanged d d' now /\
+  (r = err_other \/
+   exists ms, r = RArr (map RBulk ms) /\
+     (forall m, In m ms -> mem_of d now k m = true) /\
+     zlength ms = if card_of d now k =? 0 then 0 else - n).
+Proof.
+  intros W Hc Hn Hw H. bridge W H dispatch_srandmember. rewrite <- V0 in Hw.
+  destruct (srandmember_beyond_raw (purge d now) c k cnt n hint r d' Hc Hn Hw D) as (A1 & A2).
+  split; [rewrite A1; apply unchanged_purge; exact W|]. rewrite <- V0. exact A2.
+Qed.
+
+(* the repaired code's refusal is the model's answer whenever it is what was observed *)
+Theorem step_srandmember_refusal_accepted d now nowms c k cnt n e :
+  db_wf d -> atoi64 cnt = Some n -> n < - max_random_repeat -> e <> B "WRONGTYPE" ->
+  exists d', sets_step d now nowms (B "srandmember") [c; k; cnt] (RErr e) = Some (err_other, d') /\
+             unchanged d d' now.
+Proof.
+  intros W Hc Hn He. exists (purge d now). split; [|apply unchanged_purge; exact W].
+  unfold sets_step. rewrite dispatch_srandmember. unfold exec_srandmember. rewrite Hc.
+  destruct (n <? - max_random_repeat) eqn:L; [|lia]. cbn [andb refused].
+  destruct (bytes_eqb_spec e (B "WRONGTYPE")); [contradiction|reflexivity].
 Qed.
 
 (* ---- WRONGTYPE: a key of another type gives that error; an error never changes anything ---- *)
